@@ -10,6 +10,7 @@ import TsV.Model.Generate
 import TsV.Model.Writer
 import TsV.Model.Config
 import TsV.Model.Annotation
+import TsV.Model.Files
 import TsV.Lemmas.C15_Driver
 /-!
 # `tsmodel`: one s-expression request per line in, one JSON answer per line out.
@@ -53,6 +54,10 @@ def optStr : Sx → Option (Option Str)
   | .atom "none" => some none
   | .str s => some (some s)
   | _ => none
+
+def langOf : String → Option Lang
+  | "typescript" => some .typescript | "kotlin" => some .kotlin | "swift" => some .swift
+  | "scala" => some .scala | "go" => some .go | "python" => some .python | _ => none
 
 /-- `(typescript ((k v)…) header|none)` … one clause per back end -/
 def decodeLang : Sx → Option Generate.LangCfg
@@ -202,6 +207,13 @@ def handle (st : DriverState) (req : Sx) : DriverState × J :=
       | "kebab" => .obj [("ok", .str (Rename.toKebab st.U s))]
       | "screaming_kebab" => .obj [("ok", .str (Rename.toScreamingKebab st.U s))]
       | _ => bad "renameext")
+  | .list [.atom "crate-name", .list comps, .atom lang] =>
+    (st, match Decode.strs comps, langOf lang with
+      | some cs, some l =>
+        match Files.findCrateName cs with
+        | some c => .obj [("ok", .str c), ("file", .str (Files.outputFileName l c))]
+        | none => .obj [("ok", .null)]
+      | _, _ => bad "crate-name")
   | .list [.atom "serde", .atom pos, .str r, .str s] =>
     (st, match Serde.Rule.ofStr r with
       | none => .obj [("err", .str "unknown-rule".toList)]
